@@ -38,6 +38,9 @@ void hf_block(void)
 #endif
     for (b = 0; b < NBLK; b++) {
         sp_chacha20_block(ks, st);
+#ifdef VONLYBLK     /* decomposition for multi-block lengths: this obligation compares the bytes of block VONLYBLK only (its siblings take the others) */
+        if (b == VONLYBLK)
+#endif
         for (i = 0; i < 64 && 64 * b + i < NB; i++) if (out[64 * b + i] != (unsigned char) (vin.m[64 * b + i] ^ ks[i])) ok = 0;
         st[12]++; if (st[12] == 0) st[13]++;          /* 64-bit block counter, low word first */
     }
